@@ -129,6 +129,58 @@ theorem C03_txset_perm (base : List Tx) (l l' : List Tx) (hp : l.Perm l') (hs : 
     (hu : (l.map (·.hash)).Nodup) : l.foldl State.insertTx base = l'.foldl State.insertTx base :=
   C3.foldl_insertTx_perm hp (sortedTxs_pairwise hs) hu
 
+/-! ### a block holds a transaction at most once
+
+Since the fix for the double application of the grandfathered faucet transaction, `create_next_state` rejects
+(`DuplicateTx`) a transaction whose hash is already in the block's transaction list — put there by an earlier
+batch of the same block or by an earlier member of the same batch.  No hypothesis about faucets, markers or
+grandfathering is needed any more. -/
+
+/-- an accepted batch has pairwise distinct hashes, and none of them was already in the block -/
+theorem C03_accepted_fresh (env : Env) (s s' : State) (txs : List Tx) (fb : Header)
+    (h : applyBatch env s txs fb = .ok s') :
+    (txs.map (·.hash)).Nodup ∧ ∀ tx ∈ txs, ∀ t ∈ s.txs, t.hash ≠ tx.hash := by
+  obtain ⟨h1, h2⟩ := C3.applyBatch_fresh h
+  refine ⟨h1, fun tx htx t ht e => ?_⟩
+  have := h2 tx htx
+  rw [(C3.any_hash_iff).mpr ⟨t, ht, e⟩] at this
+  cases this
+
+/-- **no transaction twice in a block**: after an accepted batch the hashes of the block's transaction list are
+    pairwise distinct, and every transaction of the batch is in it, as the only entry with its hash — provided
+    the list the batch started from was sorted (which `Inv.sorted` says of every reachable state) -/
+theorem C03_block_tx_once (env : Env) (s s' : State) (txs : List Tx) (fb : Header) (hs : SortedTxs s.txs)
+    (h : applyBatch env s txs fb = .ok s') :
+    (s'.txs.map (·.hash)).Nodup ∧ ∀ tx ∈ txs, tx ∈ s'.txs ∧ ∀ t ∈ s'.txs, t.hash = tx.hash → t = tx := by
+  obtain ⟨hnd, -⟩ := C3.applyBatch_fresh h
+  obtain ⟨hsorted, hmem⟩ := C3.foldl_insertTx_spec txs s.txs (sortedTxs_pairwise hs) hnd
+  rw [← C3.applyBatch_txsEq h] at hsorted hmem
+  have hnd' := C3.nodup_hashes_of_sorted hsorted
+  refine ⟨hnd', fun tx htx => ?_⟩
+  have hin : tx ∈ s'.txs := (hmem tx).mpr (Or.inl htx)
+  exact ⟨hin, fun t ht e => C3.hashInj_of_nodup hnd' t ht tx hin e⟩
+
+/-- **the same hash at two positions of a batch**: never accepted -/
+theorem C03_no_same_hash_twice (env : Env) (s : State) (txs : List Tx) (fb : Header)
+    (i j : Nat) (hi : i < txs.length) (hj : j < txs.length) (hij : i ≠ j)
+    (hh : txs[i].hash = txs[j].hash) : ∀ s', applyBatch env s txs fb ≠ .ok s' := by
+  intro s' h
+  have hnd := (C3.applyBatch_fresh h).1
+  have key : ∀ a b (ha : a < txs.length) (hb : b < txs.length), a < b → txs[a].hash ≠ txs[b].hash := by
+    intro a b ha hb hab
+    have := (List.pairwise_iff_getElem.mp hnd) a b (by simpa using ha) (by simpa using hb) hab
+    simpa using this
+  rcases Nat.lt_or_gt_of_ne hij with hlt | hgt
+  · exact key i j hi hj hlt hh
+  · exact key j i hj hi hgt hh.symm
+
+/-- … and a transaction whose hash is already in the block makes every batch containing it fail -/
+theorem C03_already_in_block (env : Env) (s : State) (txs : List Tx) (fb : Header) (tx : Tx) (htx : tx ∈ txs)
+    (hdup : ∃ t ∈ s.txs, t.hash = tx.hash) : ∀ s', applyBatch env s txs fb ≠ .ok s' := by
+  intro s' h
+  obtain ⟨t, ht, e⟩ := hdup
+  exact (C03_accepted_fresh env s s' txs fb h).2 tx htx t ht e
+
 /-! ### why `PermPre.gfMarkers` is needed
 
 `handle_faucet_tx` looks up the de-duplication pseudo-coin of EVERY faucet transaction, but inserts it only
@@ -217,6 +269,22 @@ theorem nonvacuous : PermPre env s [v, u'] ∧ (applyBatch env s [v, u'] default
     simp only [List.mem_cons, List.not_mem_nil, or_false] at ht
     rcases ht with rfl | rfl <;> simp [s, v, u', P, CoinMap.getCoin, AList.get]
 
+/-- the fix at work: the grandfathered faucet transaction `u'` (which leaves no marker, `C19_grandfathered_no_marker`)
+    is rejected with `DuplicateTx` when it occurs twice in a batch, and when it is applied a second time to the
+    same block -/
+theorem same_block_replay_rejected :
+    env.isGrandfathered u'.hash = true ∧ u'.kind = .faucet ∧
+    applyBatch env s [u', u'] default = .reject .duplicateTx ∧
+    ∃ s₁, applyBatch env s [u'] default = .ok s₁ ∧ applyBatch env s₁ [u'] default = .reject .duplicateTx := by
+  refine ⟨rfl, rfl, eq_of_isDup (by decide +kernel), ?_⟩
+  have h : (match applyBatch env s [u'] default with
+    | .ok s₁ => isDup (applyBatch env s₁ [u'] default)
+    | _ => false) = true := by decide +kernel
+  cases hs : applyBatch env s [u'] default with
+  | ok s₁ => rw [hs] at h; exact ⟨s₁, rfl, eq_of_isDup h⟩
+  | reject e => rw [hs] at h; cases h
+  | crash c => rw [hs] at h; cases h
+
 end C03Witness
 
 end Mel
@@ -227,5 +295,10 @@ end Mel
 #print axioms Mel.C03_max_perm
 #print axioms Mel.C03_satsum_perm
 #print axioms Mel.C03_txset_perm
+#print axioms Mel.C03_accepted_fresh
+#print axioms Mel.C03_block_tx_once
+#print axioms Mel.C03_no_same_hash_twice
+#print axioms Mel.C03_already_in_block
 #print axioms Mel.C03Witness.gfMarkers_needed
 #print axioms Mel.C03Witness.nonvacuous
+#print axioms Mel.C03Witness.same_block_replay_rejected
